@@ -98,7 +98,9 @@ def same_line(got, exp_raw):
     """exp_raw = the bytes between two LFs (CRs not yet stripped)."""
     if not exp_raw.endswith(b'\r'):
         return got == exp_raw
-    return got == exp_raw[:-1] or got == exp_raw.rstrip(b'\r')
+    # exactly one: in `a CR CR LF` the terminator is CRLF and the line is `a CR` (accepting the line with every trailing CR removed, as this
+    # oracle once did, let a splitter that strips them all pass - seeded change C18-9)
+    return got == exp_raw[:-1]
 
 
 def raw_lines(stream):
